@@ -23,6 +23,8 @@ class VirtualClock(object):
         self.now = start
 
     def time(self):
+        # reading the clock takes time too: guarantees progress of busy-wait loops that sleep(0)
+        self.now += 2e-5
         return self.now
 
     def sleep(self, d):
